@@ -480,7 +480,7 @@ func ewExec(r *core.Run, c ewCase) (*core.Fail, string) {
 	if len(got) != n {
 		return core.F("wrong-shape", "n", "result has %d elements, expected %d", len(got), n), o.Class
 	}
-	kfDivZero, kfReuseB, kfMinMaxIncr := false, false, false
+	kfDivZero, kfReuseB, kfMinMaxIncr, kfCmpLen1 := false, false, false, false
 	defer func() { _ = kfDivZero }()
 	for i := 0; i < n; i++ {
 		w := want[i]
@@ -533,6 +533,10 @@ func ewExec(r *core.Run, c ewCase) (*core.Fail, string) {
 			kfMinMaxIncr = true // DEFECT model of F-C07-minmax-incr-overwrites: the increment tensor is overwritten with the result
 			continue
 		}
+		if !okv && c.kind == "cmp" && mode == "unsafe" && c.form == "ST" && n == 1 && ref.Same(got[i], bv[i]) {
+			kfCmpLen1 = true // DEFECT model of F-C11-cmp-unsafe-scalar-left-len1: the tensor is left unchanged
+			continue
+		}
 		if !okv && mode == "reuse=b" && c.form == "TT" {
 			// DEFECT model of F-C07-reuse-aliases-b: on the iterator path a is first copied into the reuse tensor (== b),
 			// then the operation is applied to (reuse, b): the result is op(a, a)
@@ -556,6 +560,9 @@ func ewExec(r *core.Run, c ewCase) (*core.Fail, string) {
 			}
 			return core.F("wrong-value", fmt.Sprintf("el%d", i), "element %d: got %s, expected %s (a=%s b=%s scalar=%s) all got %s", i, ref.Fmt(got[i]), ref.Fmt(exp), elOr(av, i, needA), elOr(bv, i, needB), ref.Fmt(sv), ref.FmtEls(got)), o.Class
 		}
+	}
+	if kfCmpLen1 {
+		return core.F("wrong-value[KF:cmp-unsafe-scalar-left-len1]", "c1", "in-place comparison scalar OP one-element tensor leaves the tensor unchanged (the result is written into the scalar's temporary). got %s", ref.FmtEls(got)), o.Class
 	}
 	if kfMinMaxIncr {
 		return core.F("wrong-value[KF:minmax-incr-overwrites]", "mi", "%s with an increment tensor overwrites it with the result instead of adding to it. got %s", c.op, ref.FmtEls(got)), o.Class
